@@ -1528,6 +1528,7 @@ int32 parseServerHello(ssl_t *ssl, int32 hsLen, unsigned char **cp,
     int32 rc;
     unsigned char *extData;
     unsigned char *c;
+    unsigned short extLen = 0;
 
     c = *cp;
 
@@ -1762,7 +1763,14 @@ int32 parseServerHello(ssl_t *ssl, int32 hsLen, unsigned char **cp,
             ssl->err = SSL_ALERT_DECODE_ERROR;
             return MATRIXSSL_ERROR;
         }
-        rc = parseServerHelloExtensions(ssl, hsLen, extData, &c, end - c);
+        extLen = end - c;
+    }
+    /* What follows the extension parse - the extensions the server had to
+       answer (extended master secret, renegotiation_info) and the TLS 1.3
+       downgrade sentinel - holds for a ServerHello that has no extension
+       block as well: that one is parsed as an empty block. */
+    {
+        rc = parseServerHelloExtensions(ssl, hsLen, extData, &c, extLen);
         if (rc < 0)
         {
             /* Alerts will already have been set inside */
